@@ -535,6 +535,7 @@ class SegmentWriter(IndexWriter):
         self.compound = compound and newsegment.should_assemble()
         self.is_closed = False
         self._added = False
+        self._schema_backup = None
         self.pool = PostingPool(self._tempstorage, self.newsegment,
                                 limitmb=limitmb)
 
@@ -597,16 +598,28 @@ class SegmentWriter(IndexWriter):
     def temp_storage(self):
         return self._tempstorage
 
+    def _save_schema(self):
+        # The schema object may be shared with the Index object this writer
+        # was created from: remember its fields so cancel() can put them back
+        if self._schema_backup is None:
+            schema = self.schema
+            self._schema_backup = (dict(schema._fields),
+                                   dict((name, list(subs)) for name, subs
+                                        in schema._subfields.items()),
+                                   dict(schema._dyn_fields))
+
     def add_field(self, fieldname, fieldspec, **kwargs):
         self._check_state()
         if self._added:
             raise Exception("Can't modify schema after adding data to writer")
+        self._save_schema()
         super(SegmentWriter, self).add_field(fieldname, fieldspec, **kwargs)
 
     def remove_field(self, fieldname):
         self._check_state()
         if self._added:
             raise Exception("Can't modify schema after adding data to writer")
+        self._save_schema()
         super(SegmentWriter, self).remove_field(fieldname)
 
     def has_deletions(self):
@@ -946,6 +959,11 @@ class SegmentWriter(IndexWriter):
     def cancel(self):
         self._check_state()
         self._close_segment()
+        if self._schema_backup is not None:
+            # Undo this writer's add_field()/remove_field() calls
+            schema = self.schema
+            (schema._fields, schema._subfields,
+             schema._dyn_fields) = self._schema_backup
         self._finish()
 
 
